@@ -1168,6 +1168,43 @@ theorem pixel2point_batch_item (px : Batch.T (List (ℝ × ℝ))) (depth : Batch
   simp only [Batch.T.get, Batch.unravel_ravel' hi]
 
 
+/-! ## ties at the selection boundary -/
+
+/-- **knn_filter with ties at the selection boundary** (integer grids, organised / voxelised clouds — no tie hypothesis
+at all): for EVERY `topk` kernel meeting the contract, every output row is the per-channel mean over SOME admissible choice
+of `k+1` cloud points — `k+1` points exactly, none of them farther from the retained point than a point that was left out.
+(A mean over all points tied at the cut, `k+2` or more, is excluded.) `knn_filter_spec_gap` / `knn_filter_spec` are the
+special cases with a single admissible choice. -/
+theorem knn_filter_spec_ties (htk : TopkContract topk) (o : Norm) (pdim kk : Nat) (radius : Option ℝ) (pts : List (Pt ℝ))
+    (hk : kk + 1 ≤ pts.length) :
+    ∃ rows, knnFilter topk o pdim kk radius pts = some rows ∧
+      List.Forall₂ (fun p row => ∃ L, Admissible o pdim (kk + 1) pts p L ∧ row = meanCols (width pts) L)
+        (knnRetained o pdim kk radius pts) rows := by
+  refine ⟨(knnRetained o pdim kk radius pts).map (knnMean topk o pdim kk pts), ?_, ?_⟩
+  · unfold knnFilter; rw [if_neg (by omega)]
+  · rw [List.forall₂_map_right_iff]
+    apply List.forall₂_same.2
+    intro p _
+    exact ⟨_, topk_points_admissible topk htk o pdim (kk + 1) pts p hk, rfl⟩
+
+/-- **knn with ties**: the returned index list is an admissible selection for EVERY kernel — no neighbour that was left out
+is closer to `r` than one that was returned (with exact ties any such list is allowed; the values are unique: `knn_spec`). -/
+theorem knn_indices_admissible (htk : TopkContract topk) (o : Norm) (kk : Nat) (nbr : List (Pt ℝ)) (hk : kk ≤ nbr.length)
+    (r : Pt ℝ) :
+    ∀ i ∈ (knnRow topk o false kk nbr r).2, ∀ j, j < nbr.length → j ∉ (knnRow topk o false kk nbr r).2 →
+      dist o r (nbr.getD i []) ≤ dist o r (nbr.getD j []) := by
+  intro i hi j hj hnot
+  have h := htk false (nbr.map (dist o r)) kk (by simpa using hk)
+  have hii : i < nbr.length := by simpa using h.inb i hi
+  have hl := h.least i hi j (by simpa using hj) hnot
+  simp only [ordRel] at hl
+  have hi' : i < (nbr.map (dist o r)).length := by simpa using hii
+  have hj' : j < (nbr.map (dist o r)).length := by simpa using hj
+  rw [List.getD_eq_getElem (nbr.map (dist o r)) 0 (n := i) hi', List.getD_eq_getElem (nbr.map (dist o r)) 0 (n := j) hj'] at hl
+  rw [List.getD_eq_getElem nbr [] (n := i) hii, List.getD_eq_getElem nbr [] (n := j) hj]
+  simpa using hl
+
+
 /-! ## non-vacuity: the hypotheses used above are satisfiable by non-trivial values -/
 
 /-- a `topk` kernel meeting the contract exists: the driver's stand-in (stable merge sort) -/
@@ -1228,5 +1265,17 @@ example : ¬ ∀ u v d : ℝ, (2⁻¹ : ℝ) ≤ |d| → ∃ P : Vec3 ℝ, pixel
   norm_num at this
 example : ∃ σ : Equiv.Perm (Fin 3), σ 0 = 1 ∧ σ 1 = 2 ∧ σ 2 = 0 :=
   ⟨(Equiv.swap 0 1).trans (Equiv.swap 0 2), by decide, by decide, by decide⟩
+
+/-- the 4×4-grid situation: the point `(0,0)` has two neighbours at distance 1; with `k = 1` both `{(0,0),(1,0)}` and
+`{(0,0),(0,1)}` are admissible, the three-point set is not (wrong size) -/
+example : Admissible .l2 2 2 [[0, 0], [1, 0], [0, 1], [1, 1]] ([0, 0] : Pt ℝ) [[0, 0], [0, 1]] := by
+  refine ⟨rfl, [[1, 0], [1, 1]], ?_, ?_⟩
+  · have h : ([[1, 0], [0, 1]] : List (Pt ℝ)).Perm [[0, 1], [1, 0]] := List.Perm.swap _ _ _
+    exact (List.Perm.cons _ ((h.symm.append_right [[1, 1]]))).symm.symm
+  · intro a ha b hb
+    simp only [List.mem_cons, List.not_mem_nil, or_false] at ha hb
+    rcases ha with rfl | rfl <;> rcases hb with rfl | rfl <;>
+      simp [pdist, dist, normOf, vsub, sumL_real]
+
 
 end PP.Cloud
